@@ -8,6 +8,8 @@ Deciding steps (frame lemmas, rule engine over the real ast; all inputs):
   L2  the only stores into `cst_list` anywhere under doctransify_cst are at `cst_idx` (the def header slot) and
       `cst_idx + 1`, the latter only under `existing_doc_str` (replace / delete) or as an insertion when there is
       no docstring; find_cst_at_ast and doctransify_cst never store into it.
+  L3  (E1, z3) find_cst_at_ast returns either None or the element at the returned index, whose name is the AST node's
+      name and whose CST type is the one ast2cst maps the AST type to; it only reads the list.
   With C09 (node values tile the file) this gives: every line that is not a definition header or a docstring is
   byte-identical.
 Bounded (stand-in, NOT proved): AST equality modulo docstrings/annotations, comments, validity, byte-identical
@@ -22,7 +24,7 @@ import os
 import tempfile
 import tokenize
 
-from cddvc import extract
+from cddvc import e1, extract
 from cddvc.report import PROVED, REFUTED, UNDECIDED, Run, compare_baseline
 from checks import common
 
@@ -298,8 +300,11 @@ def bounded(tier):
 def main(tier, write_baseline=False):
     run = Run("C07", tier, "other", checker_cmd=common.checker_cmd("C07", tier))
     run.trusted_base.update(["rule engine of checks/C07.py over the real ast (write-frame and statement-order rules)", "C09's proved contract: CST node values concatenate to the file and tile its lines"])
+    run.trusted_base.add("cddvc E1 (Seq view of the CST list, uninterpreted attribute / type functions on CST nodes)")
     run.assumptions.add("CST node values are str (C09 contract for cst_parse; replacements are built by str.format), so ''.join cannot raise after the file was opened")
     refuted = []
+    for o in e1.run_contracts(run, "contracts.C07"):
+        refuted.append((o["name"], "obligation refuted by %s on path %s" % (o["backend"], " ".join(o["trace"]))))
     for name, ok, detail in frame_obligations():
         st = UNDECIDED if ok is None else (PROVED if ok else REFUTED)
         run.add("C07/frame/" + name, st, "rule-engine", detail=detail)
